@@ -4,6 +4,7 @@ package memrt
 
 import (
 	"bytes"
+	"fmt"
 	"io"
 	"net/http"
 	"sync"
@@ -35,6 +36,10 @@ func (rt *RT) RoundTrip(req *http.Request) (*http.Response, error) {
 	if req.Body != nil {
 		body, _ = io.ReadAll(req.Body)
 		_ = req.Body.Close()
+	}
+	// net/http's transport fails a request whose body length differs from the declared Content-Length
+	if req.ContentLength > 0 && int64(len(body)) != req.ContentLength {
+		return nil, fmt.Errorf("http: ContentLength=%d with Body length %d", req.ContentLength, len(body))
 	}
 	rt.mu.Lock()
 	n := len(rt.Log)
